@@ -276,17 +276,28 @@ def _yaml_load(file: TextIO) -> Union[_ConfigNodeV3, _MapNode]:
     class Loader(yaml.Loader):
         pass
 
+    def construct_map(loader, node) -> _MapNode:
+        loader.flatten_mapping(node)
+        pairs = loader.construct_pairs(node)
+
+        for key, _ in pairs:
+            if type(key) is not str:
+                # all the keys of barectf YAML objects are strings
+                problem = f'Expecting a string key, got `{key}`'
+                raise yaml.constructor.ConstructorError(problem=problem,
+                                                        problem_mark=node.start_mark)
+
+        return collections.OrderedDict(pairs)
+
     def config_ctor(loader, node) -> _ConfigNodeV3:
         if not isinstance(node, yaml.MappingNode):
             problem = f'Expecting a map for the tag `{node.tag}`'
             raise yaml.constructor.ConstructorError(problem=problem)
 
-        loader.flatten_mapping(node)
-        return _ConfigNodeV3(collections.OrderedDict(loader.construct_pairs(node)))
+        return _ConfigNodeV3(construct_map(loader, node))
 
     def mapping_ctor(loader, node) -> _MapNode:
-        loader.flatten_mapping(node)
-        return collections.OrderedDict(loader.construct_pairs(node))
+        return construct_map(loader, node)
 
     Loader.add_constructor(_CONFIG_V3_YAML_TAG, config_ctor)
     Loader.add_constructor(yaml.resolver.BaseResolver.DEFAULT_MAPPING_TAG, mapping_ctor)
